@@ -76,6 +76,8 @@ fn check_entry(p: &Program, sym: &DocumentSymbol, decl: usize, file: &str) -> Re
     }
 }
 
+const DISABLED_TAIL: &str = "#ifdef C18_NOT_DEFINED\nclass HiddenA { int x = 1; }\n#ifdef C18_INNER\ndef HiddenB;\n#else\ndef HiddenC { int y = 2; }\nmulticlass HiddenM { def _x; }\n#endif\ndefset list<HiddenA> HiddenS = { def HiddenD : HiddenA; }\nforeach i = [1, 2] in { def HiddenE#i; }\n#else\n#endif\n";
+
 impl Property for C18 {
     fn id(&self) -> &'static str {
         "C18"
@@ -143,7 +145,12 @@ impl Property for C18 {
             }
             return Verdict::pass(missing < 3 && lets != 0);
         }
-        let Some(p) = program_of(case) else { return Verdict::Skip("malformed-case") };
+        let Some(mut p) = program_of(case) else { return Verdict::Skip("malformed-case") };
+        // every third program ends with a switched-off region full of declarations and blocks (with a conditional
+        // of two branches nested in it): text that is not part of the program adds nothing to outline and folding
+        if case["seed"].as_u64().unwrap_or(1) % 3 == 0 {
+            p.files[0].1.push_str(DISABLED_TAIL);
+        }
         let ws = workspace_of(&p);
         let a = ws.analysis();
         let fail = |oracle: &str, detail: String| Verdict::Fail(Failure::plain(oracle, format!("{detail}\n{}", show(&p))));
